@@ -207,7 +207,7 @@ def empty(slice_i, n):
         yield {"model": spec, "points": None}
 
 def parts(tier):
-    return [Part("scale", strategy=lambda t: __import__("vf.strategies", fromlist=["x"]).scale_case(), check=check_model, quick=(1, 40), thorough=(2, 600)), Part("shared_depths", enumerate_cases=(lambda t: ({"model": s_, "points": None} for s_ in __import__("vf.strategies", fromlist=["x"]).shared_depth_shapes())), check=check_model, time_quick=120.0), Part("empty0", enumerate_cases=(lambda t: empty(0, 1)), check=check_model, time_quick=120.0), Part("class_twins", strategy=lambda t: S.class_twin_spec().map(lambda s_: {"model": s_, "points": None}), check=check_model, quick=(1, 300), thorough=(2, 3000))] + [Part("mixed%d" % i, enumerate_cases=(lambda t, i=i: mixed(i, 8)), check=check_model, time_quick=150.0) for i in range(8)] + [Part("shapes%d" % i, enumerate_cases=(lambda t, i=i: shapes(i, 4)), check=check_model, time_quick=120.0) for i in range(4)] + [
+    return [Part("cfg_shapes", enumerate_cases=(lambda t: ({"model": s_} for s_ in S.cfg_small_shapes())), check=check_cfg, time_quick=150.0), Part("scale", strategy=lambda t: __import__("vf.strategies", fromlist=["x"]).scale_case(), check=check_model, quick=(1, 40), thorough=(2, 600)), Part("shared_depths", enumerate_cases=(lambda t: ({"model": s_, "points": None} for s_ in __import__("vf.strategies", fromlist=["x"]).shared_depth_shapes())), check=check_model, time_quick=120.0), Part("empty0", enumerate_cases=(lambda t: empty(0, 1)), check=check_model, time_quick=120.0), Part("class_twins", strategy=lambda t: S.class_twin_spec().map(lambda s_: {"model": s_, "points": None}), check=check_model, quick=(1, 300), thorough=(2, 3000))] + [Part("mixed%d" % i, enumerate_cases=(lambda t, i=i: mixed(i, 8)), check=check_model, time_quick=150.0) for i in range(8)] + [Part("shapes%d" % i, enumerate_cases=(lambda t, i=i: shapes(i, 4)), check=check_model, time_quick=120.0) for i in range(4)] + [
         Part("models", strategy=lambda t: model_strat(t, "small"), check=check_model, quick=(5, 350), thorough=(10, 2500), fuzz=(2, 20000)),
         Part("models_large", strategy=lambda t: model_strat(t, "large"), check=check_model, quick=(1, 300), thorough=(2, 2000)),
         Part("models_huge", strategy=lambda t: model_strat(t, "huge"), check=check_model, quick=(1, 200), thorough=(2, 2000)),
